@@ -474,7 +474,7 @@ func checkC02(r *Run) {
 			isMsize = func(fi *FuncInfo, e ast.Expr, depth int) bool {
 				base := func(e ast.Expr) bool {
 					t := norm(e)
-					if strings.HasPrefix(t, "atomic.LoadUint32(&") && strings.HasSuffix(t, ".messageSize)") {
+					if strings.HasPrefix(t, "atomic.LoadUint32(&") && strings.HasSuffix(t, ".messageSize)") || strings.HasSuffix(t, ".messageSize.Load()") {
 						sawLoad = true
 						return true
 					}
